@@ -10,6 +10,7 @@ package main
 // or belong to the optimiser's two callbacks (decided by OPT.WHITELIST / OPT.ETA).
 
 import (
+	"go/types"
 	"fmt"
 	"sort"
 	"strings"
@@ -75,9 +76,14 @@ func (r *rwRT) ruleMutGuard() {
 	din := r.interp(rwConfig{root: rf, boundaries: map[string]bool{"rewriteFile": false, "mkYieldFromRewriter": false, "mkYieldRewriter": false, "collectYieldFunc": true, "rewriteYieldFunc": true, "rewriteForRange": true, "rewriteYieldFrom": true}})
 	din.MaxDepth, din.MaxVisits, din.SnapClosures = 10, 12, true
 	din.Inline = func(f *ssa.Function) bool {
-		return inRw(f) && f.Name() != "collectYieldFunc" && (f == rf || f.Parent() == rf || strings.HasPrefix(f.Name(), "mk") || outermost(f) == rf || !reachesCursorMutator(f, 3))
+		// (a function that hands back a function value is a constructor of a pass, whatever it is called)
+		makesCallback := false
+		if res := f.Signature.Results(); res.Len() == 1 {
+			_, makesCallback = res.At(0).Type().Underlying().(*types.Signature)
+		}
+		return inRw(f) && f.Name() != "collectYieldFunc" && (f == rf || f.Parent() == rf || strings.HasPrefix(f.Name(), "mk") || makesCallback || outermost(f) == rf || !reachesCursorMutator(f, 3))
 	}
-	din.Fields["runningWithGoTest"] = mkBool(false)
+	r.setTestMode(din, false)
 	douts := din.Run(nil, rf, []AV{Sym{Name: "r", NN: true}, Sym{Name: "f", NN: true}, Sym{Name: "printer", NN: true}}, nil)
 	r.account(din)
 	type cbVal struct {
@@ -144,7 +150,7 @@ func (r *rwRT) ruleMutGuard() {
 				if inlineHelpers {
 					in.MaxDepth = 12
 				}
-				in.Fields["r.rewriter.coImportedName"] = mkString("co")
+				r.setImportNames(in, "co", "")
 				node := r.node(kind, "n")
 				in.OnCall = wrapOnCall(in.OnCall, func(cc *CallCtx) []Answer {
 					if cc.Fn != nil && cc.Fn.Name() == "Node" && cc.Fn.Signature.Recv() != nil && strings.Contains(cc.Fn.Signature.Recv().Type().String(), "astutil.Cursor") {
@@ -152,7 +158,7 @@ func (r *rwRT) ruleMutGuard() {
 					}
 					return nil
 				})
-				in.Fields["runningWithGoTest"] = mkBool(false)
+				r.setTestMode(in, false)
 				base := cb.st.clone()
 				mark := len(base.Events)
 				nl := len(base.Labels)
